@@ -201,6 +201,37 @@ fn c12_cosine_range_zero_vector_symmetry_d2() {
     kani::cover!(dot < 0, "obtuse");
 }
 
+// the same laws through the 8-lane block path (D = 9: one block + remainder), smaller grid
+// @check id=C12 tier=thorough cap=1500 role=cosine_laws_block_path
+// @fns DistanceMetric::compute_f32, distance::cosine_distance
+// @bound D = 9, integer coordinates in [-1,1]
+#[kani::proof]
+#[kani::unwind(12)]
+fn c12_cosine_laws_through_the_lane_block_d9() {
+    let (a, b, _man, dot, _sq) = grid::<9>(1);
+    let c = DistanceMetric::Cosine;
+    let ab = c.compute_f32(&a, &b).unwrap();
+    let ba = c.compute_f32(&b, &a).unwrap();
+    assert!(ab >= 0.0 && ab <= 2.0, "cosine distance within [0,2]");
+    assert!(ab.to_bits() == ba.to_bits(), "cosine symmetric");
+    let zero = |v: &[f32; 9]| { let mut z = true; let mut i = 0; while i < 9 { if v[i] != 0.0 { z = false; } i += 1; } z };
+    if zero(&a) || zero(&b) {
+        assert!(ab == 1.0, "a zero vector is at distance 1 from everything");
+    } else {
+        if dot > 0 {
+            assert!(ab < 1.0, "acute angle: below 1");
+        }
+        if dot < 0 {
+            assert!(ab > 1.0, "obtuse angle: above 1");
+        }
+        if dot == 0 {
+            assert!(ab == 1.0, "orthogonal: exactly 1");
+        }
+    }
+    kani::cover!(dot < 0 && a[8] != 0.0 && b[8] != 0.0, "obtuse, remainder lane in use");
+    kani::cover!(zero(&a) && !zero(&b), "zero query");
+}
+
 // @check id=C12 tier=quick cap=600 role=dimension_mismatch
 // @fns DistanceMetric::compute_f32, DistanceMetric::compute, DistanceMetric::compute_mixed, distance::check_dimensions
 // @bound slices of symbolic lengths 0..3 (any metric): Err iff the lengths differ
